@@ -1,5 +1,5 @@
 """C09 — exception safety: basic guarantee everywhere, strong where documented"""
-from vlib import veccheck as VC, vec as V
+from vlib import veccheck as VC, vec as V, common as C
 
 PROPERTY = 'C09'
 LEVEL = 'proof'
@@ -113,6 +113,57 @@ def run(ctx):
         return any(o.res in ('exc:elem', 'exc:alloc') for o in obs)
     VC.run(ctx, cfgs, gen, n, preds=(exc_pred, VC.fault_pred), nontrivial=nontrivial, label='C09 fault schedule', signature=signature, max_report=6)
     ctx.coverage['fault_kinds_fired'] = ctx.coverage.get('exception_kinds', {})
+    # element types whose move constructor throws: the exception must reach the caller (a wrong noexcept specification makes it
+    # std::terminate), nothing leaked or destroyed twice, both vectors usable afterwards
+    r = throwing_move(ctx)
+    if r is not None:
+        bad, tot = r
+        ctx.coverage['throwing_move'] = {'rule': 'swap / move assignment / move construction between two FixedCapacityVector<E,4> (sizes 0..4) and two '
+                                         'SmallVector<E,3> (sizes 0..5, i.e. inline and heap-backed operands), E with a throwing move constructor and '
+                                         'its own noexcept swap, throw at the k-th move for every k; one process per scenario', 'total': tot,
+                                         'failing': len(bad)}
+        if bad:
+            txt = 'kind=throwing-move\n# harness/swapthrow_harness.cpp, one line per failing scenario (replay re-runs exactly these)\n'
+            txt += ''.join(f'scenario: {h}\n#   {d}\n' for h, d in bad[:40])
+            ctx.violation(f'throwing move constructor: {len(bad)} scenario(s) fail, e.g. {bad[0][1][:200]}', txt, found_input=True)
+
+def throwing_move(ctx, only=None):
+    """swap / move construction / move assignment between vectors with inline storage of an element type whose MOVE constructor may
+    throw and which has its own noexcept swap (harness/swapthrow_harness.cpp): every (operation, size a, size b, throw index k), each
+    in its own process. Returns the list of failing scenario lines."""
+    (path, log), = C.build_many([dict(src='swapthrow_harness.cpp', defs=[], name='swapthrow')])
+    if path is None:
+        ctx.violation('throwing-move harness does not build: ' + log[-300:], 'kind=build\n' + log[-3000:], found_input=True)
+        return None
+    p = C.sh([path] + (only or []), timeout=900)
+    out = (p.stdout or '') + (p.stderr or '')
+    lines = out.splitlines()
+    bad = []
+    for i, l in enumerate(lines):
+        if 'VIOLATION' in l:
+            # a crash verdict is printed by the parent on the line(s) after the scenario header
+            j = i
+            while j >= 0 and ' -> ' not in lines[j] and '->' not in lines[j]:
+                j -= 1
+            hdr = lines[j] if j >= 0 else l
+            bad.append((hdr.split('->')[0].strip(), ' | '.join(x.strip() for x in lines[j:i + 1])[:600]))
+    tot = [l for l in lines if l.startswith('TOTAL')]
+    if not tot:
+        bad.append(('-', 'harness produced no TOTAL line: ' + out[-300:]))
+    return bad, (tot[0] if tot else '')
 
 def replay(ctx, path):
+    txt = open(path).read()
+    if 'kind=throwing-move' in txt:
+        rc = 0
+        for l in txt.splitlines():
+            if l.startswith('scenario: '):
+                f = l.split()[1:]
+                only = [f[0], f[1]] + [x.split('=')[1] for x in f[2:5]]
+                r = throwing_move(ctx, only)
+                if r is None or r[0]:
+                    print('REPLAY: still fails:', r[0][0][1] if r and r[0] else 'build'); rc = 1
+                else:
+                    print('REPLAY: no failure for', ' '.join(f))
+        return rc
     return VC.replay_file(path, preds=(exc_pred, VC.fault_pred))
